@@ -1597,54 +1597,23 @@ def prov_slash_marks(repo, tier="quick"):
     call, wnid, g, vals, wname = writes[0]
     obs.append(ob_ok(oid, fi, call, construct="set_node_attributes(graph, {idx: mark}, %s) from ez_isomers" % (show(wname) if wname else "?"), instance="written",
                      reason="the class marks are the ones recorded by the tokenizer"))
-    # branch edges on which the fragment is known to have exactly one atom
-    def _single(t, pol):
-        if t[0] == "unop" and t[1] == "not":
-            return _single(t[2], not pol)
-        if t[0] == "boolop" and ((t[1] == "and" and pol) or (t[1] == "or" and not pol)):
-            return any(_single(x, pol) for x in t[2])
-        if t[0] == "cmp" and t[1] in (("==",), ("!=",)) and ("const", 1) in t[2]:
-            other = [x for x in t[2] if x != ("const", 1)]
-            return bool(other and is_call(other[0], "len")) and pol == (t[1] == ("==",))
-        return False
-    single_edges = set()
-    for n in cfg.nodes:
-        if n.kind == "if":
-            t = fl.canon(n.ast.test, n.id)
-            for lab in ("T", "F"):
-                if _single(t, lab == "T"):
-                    single_edges.add((n.id, lab))
-    multi = (lambda src, dst, label: (src, label) not in single_edges) if single_edges else None
+    # every exit passes the write: a fragment of one atom carries a mark too (`[O-]/[$]` in front of `[$]/C=C/F`); the single-atom
+    # shortcut used to return before the marks were written (repaired in /repo: "fix: slash marks of single-atom fragments")
     bad = []
     for p, lab in cfg.pred[cfg.exit]:
         if cfg.must_pass(cfg.entry, {p}, {wnid}) or p == wnid:
             continue
-        if multi is not None and cfg.must_pass(cfg.entry, {p}, {wnid}, multi):
-            # single exit: the paths around the write are the ones on which len(graph) == 1 was seen
-            continue
         n = cfg.nodes[p]
-        if not (n.kind == "stmt" and isinstance(n.ast, ast.Return)):
-            bad.append((n, "exit without return"))
-            continue
-        single = False
-        for test, pol, gid in guards_of(fi, p):
-            t = fl.canon(test, gid)
-            # a true conjunction implies each of its conjuncts
-            for tc in (t[2] if pol and t[0] == "boolop" and t[1] == "and" else (t,)):
-                if pol and tc[0] == "cmp" and tc[1] == ("==",) and ("const", 1) in tc[2]:
-                    other = [x for x in tc[2] if x != ("const", 1)]
-                    if other and is_call(other[0], "len"):
-                        single = True
-        if not single:
-            bad.append((n, "return not controlled by `len(graph) == 1`"))
+        single = any("len(" in ast.unparse(test) and "1" in ast.unparse(test) for test, pol, gid in guards_of(fi, p))
+        bad.append((n, "the single-atom shortcut returns before the marks are written" if single else "return before the class marks are written"))
     if bad:
         for n, why in bad[:3]:
             obs.append(ob_fail(oid, fi, n.ast, construct="return before the class marks are written (%s)" % why, instance="every-path",
-                               reason="a fragment of more than one atom can be returned without its slash marks; the mark of an atom describes the bond "
-                                      "to the neighbouring fragment too, so cis/trans annotations silently disappear"))
+                               reason="a fragment can be returned without its slash marks; the mark of an atom describes the bond to the neighbouring fragment "
+                                      "too, so cis/trans annotations silently disappear ({#A=[O-]/[$],#B=[$]/C=C/F} resolves without any)"))
     else:
-        obs.append(ob_ok(oid, fi, call, construct="every return of a multi-atom fragment passes the class-mark write", instance="every-path",
-                         reason="only the single-atom shortcut (len(graph) == 1) returns earlier"))
+        obs.append(ob_ok(oid, fi, call, construct="every return passes the class-mark write", instance="every-path",
+                         reason="single-atom fragments keep their marks as well"))
     # (d) the reader of the attribute uses the same name
     fa = repo.function("pysmiles_utils:annotate_ez_isomers_cgsmiles")
 
